@@ -103,7 +103,8 @@ def mutate(rng, a):
     n = rng.choice(ns)
     op = rng.choice(["dup-child", "bounds-equal-sum", "bounds-minus1-minus2", "reuse-id-children", "reuse-id-value", "reuse-id-sign",
                      "dash-ids", "leaf-named-like-compound", "self-reference", "cycle", "bounds-different",
-                     "generated-id-coincidence", "generated-id-coincidence", "reuse-id-permuted-bounds"])
+                     "generated-id-coincidence", "generated-id-coincidence", "reuse-id-permuted-bounds",
+                     "leaf-and-compound-of-one-id-under-one-parent"])
     leaf = lambda i, lo, hi: {"c": "var", "id": i, "lo": lo, "hi": hi}
     if op == "dup-child":
         n["args"].append(copy.deepcopy(rng.choice(n["args"])))
@@ -152,6 +153,15 @@ def mutate(rng, a):
         mk = lambda p, q: {"c": cls, "args": [leaf("px", *p), leaf("py", *q)], "id": "DUP", **({"v": 1} if cls == "AtMost" else {})}
         a = {"c": "All", "args": [a, {"c": "Any", "args": [mk(b1, b2), {"c": "str", "id": "zz"}]},
                                   {"c": "Any", "args": [mk(b2, b1), {"c": "str", "id": "zy"}]}]}
+    elif op == "leaf-and-compound-of-one-id-under-one-parent":
+        # a node that lists a variable X and a sub-proposition with id X among its children, separated (in the order
+        # errors() walks them: variables first, then sub-propositions) by other children
+        inner = {"c": rng.choice(["All", "Any"]), "args": [{"c": "str", "id": "ux"}, {"c": "str", "id": "uy"}], "id": "BX"}
+        extra = [{"c": "str", "id": rng.choice(["zz", "a0", "BY"])} for _ in range(rng.randint(0, 2))]
+        extra_c = [{"c": "Any", "args": [{"c": "str", "id": "uw"}], "id": rng.choice(["AA", "CC"])}] if rng.random() < 0.5 else []
+        kids = [leaf("BX", 0, 1)] + extra + [inner] + extra_c
+        rng.shuffle(kids)
+        a = {"c": "All", "args": [a, {"c": rng.choice(["All", "Any"]), "args": kids, "id": "PX"}]}
     elif op == "dash-ids":
         a = {"c": "All", "args": [a, {"c": "Any", "args": [{"c": "str", "id": "b-c"}], "id": "A"}, {"c": "Any", "args": [{"c": "str", "id": "c"}], "id": "A-b"}]}
     elif op == "leaf-named-like-compound":
